@@ -675,14 +675,22 @@ class Interp:
         characterised through sortedness when the contract provides it: see spec function count_*)."""
         rec = st.heap[mask.arr.oid]
         n = rec.length
-        c = self.ctx.fresh("count", "Int")
+        rz = z(mask.rhs, True)
+        if z3.is_app(rz) and rz.decl().kind() == z3.Z3_OP_ITE:
+            # lift an if-then-else threshold out of the count (keeps counts of merged states syntactically tied to those of the branches)
+            a = self.count_mask(MaskV(mask.arr, mask.op, rz.arg(1)), st, node)
+            b = self.count_mask(MaskV(mask.arr, mask.op, rz.arg(2)), st, node)
+            return z3.If(rz.arg(0), z(a), z(b))
+        key = (rec.term.get_id(), mask.op, z(mask.rhs, True).get_id())
+        cache = self.ctx.__dict__.setdefault("count_cache", {})
+        if key in cache:
+            c = cache[key][0]
+        else:
+            c = self.ctx.fresh("count", "Int")
+            cache[key] = (c, rec.term, z(mask.rhs, True))      # keep the terms alive: ids are only unique among live terms
         j = z3.Int("j!q")
-        st.pc.append(z3.And(c >= 0, c <= z(n)))
-        # sound weak characterisation valid for ANY array:  all satisfy => c==n ; none satisfy => c==0
         body = z(compare(mask.op, z3.Select(rec.term, j), mask.rhs))
-        # for a monotone array and an order mask the satisfying set is a prefix or a suffix; we emit both shapes
-        # guarded by monotonicity, which the solver gets from wf_profile
-        mono = z3.ForAll([j], z3.Implies(z3.And(j >= 0, j < z(n) - 1), z3.Select(rec.term, j) < z3.Select(rec.term, j + 1)))
+        # for a non-decreasing array and an order mask the satisfying set is a prefix or a suffix
         if mask.op in ("<", "<="):
             shape = z3.And(z3.ForAll([j], z3.Implies(z3.And(j >= 0, j < c), body)),
                            z3.ForAll([j], z3.Implies(z3.And(j >= c, j < z(n)), z3.Not(body))))
@@ -691,11 +699,18 @@ class Interp:
                            z3.ForAll([j], z3.Implies(z3.And(j >= z(n) - c, j < z(n)), body)))
         else:
             raise ToolLimit("count of == mask")
-        self.ctx.mono_needed = getattr(self.ctx, "mono_needed", [])
-        # the characterisation is only assumed together with an obligation that the array is strictly increasing
+        rng = z3.And(c >= 0, c <= z(n))
+        if st.spec:
+            # in a specification the characterisation is only available under the (quantified) sortedness premise
+            mono = z3.ForAll([j], z3.Implies(z3.And(j >= 0, j < z(n) - 1), z3.Select(rec.term, j) <= z3.Select(rec.term, j + 1)))
+            st.pc.append(rng)
+            st.pc.append(z3.Implies(mono, shape))
+            return c
+        # in code: the characterisation is assumed together with an obligation that the array is non-decreasing
         jj = self.ctx.fresh("jm", "Int")
         self.ctx.oblige("count_mask_sorted", z3.Implies(z3.And(jj >= 0, jj < z(n) - 1), z3.Select(rec.term, jj) <= z3.Select(rec.term, jj + 1)),
                         st, node, "", (), note="prefix/suffix characterisation of a mask count needs a non-decreasing array")
+        st.pc.append(rng)
         st.pc.append(shape)
         return c
 
@@ -956,16 +971,26 @@ def select_term(a, j):
 
 
 def merge_two(c, ft, ff, k):
-    """Join of the two fall-through states of `if c:` whose common pre-state had k path-condition entries."""
-    et, ef = ft.pc[k + 1:], ff.pc[k + 1:]
-    m = try_merge([ft, ff], conds_override=[c, z3.Not(c)], prefix_len=k)
+    """Join of the two fall-through states of `if c:`.  The common part of the two path conditions is found by identity
+    (a loop cut inside a branch may have garbage-collected facts, so positions are not reliable)."""
+    kk = common_prefix_len([ft.pc, ff.pc])
+    nc = z3.Not(c)
+    et = [f for f in ft.pc[kk:] if not (f is c or (isinstance(f, z3.ExprRef) and f.eq(c)))]
+    ef = [f for f in ff.pc[kk:] if not (isinstance(f, z3.ExprRef) and f.eq(nc))]
+    # facts present in both tails (same object) stay unconditional
+    ids_t = {f.get_id() for f in et if isinstance(f, z3.ExprRef)}
+    both = [f for f in ef if isinstance(f, z3.ExprRef) and f.get_id() in ids_t]
+    ids_b = {f.get_id() for f in both}
+    et = [f for f in et if not (isinstance(f, z3.ExprRef) and f.get_id() in ids_b)]
+    ef = [f for f in ef if not (isinstance(f, z3.ExprRef) and f.get_id() in ids_b)]
+    m = try_merge([ft, ff], conds_override=[c, nc], prefix_len=kk)
     if m is None:
         return None
-    pc = list(ft.pc[:k])
+    pc = list(ft.pc[:kk]) + both
     if et:
         pc.append(z3.Implies(c, z3.And(*et) if len(et) > 1 else et[0]))
     if ef:
-        pc.append(z3.Implies(z3.Not(c), z3.And(*ef) if len(ef) > 1 else ef[0]))
+        pc.append(z3.Implies(nc, z3.And(*ef) if len(ef) > 1 else ef[0]))
     m.pc = pc
     return m
 
